@@ -1,0 +1,9 @@
+//go:build verif
+
+package tartrans
+
+// Exports for the verification harness (build tag `verif` only).
+var (
+	UnpackTarForVerif = unpackTar
+	PackTarForVerif   = packTar
+)
